@@ -180,5 +180,6 @@ std::map<std::string,uint64_t> &probes();
 
 // entropy: bytes served for /dev/urandom reads come from this stream
 Rng &entropy_rng();
+const std::vector<std::string> &entropy_by_open();   // per closed open() of the simulated /dev/urandom: the bytes it was served, in order (however the reads were cut): an identifier "drawn from the entropy source" equals one of them
 
 } // namespace simk
